@@ -8,7 +8,9 @@ from props.base import decide, expect_str
 F40 = ["%Y-%m-%d", "%d/%m/%Y", "%m/%d/%Y", "%d.%m.%Y", "%Y%m%d", "%d-%m-%y", "%y%m%d", "%m/%d/%y", "%Y-%m-%d %H:%M", "%Y-%m-%d %H:%M:%S", "%Y-%m-%dT%H:%M:%S",
        "%Y-%m-%d %H:%M:%S.%f", "%d/%m/%Y %I:%M %p", "%d/%m/%Y %I:%M:%S %p", "%H:%M %d.%m.%Y", "%d %B %Y", "%B %d, %Y", "%d %b %Y", "%b %d, %Y", "%d %b %y",
        "%A, %d %B %Y", "%a, %d %b %Y %H:%M:%S", "%A %d %B %Y %H:%M", "%B %Y", "%b %Y", "%m/%Y", "%Y-%m", "%Y", "%d %B", "%d/%m", "%B %d", "%b %d", "%m-%d",
-       "%d %B %Y %H:%M", "%b %d %Y %I:%M%p", "%Y/%m/%d %H.%M", "%d %b %Y %H:%M:%S.%f", "%I %p %d %B %Y", "%y-%m-%d %H:%M", "%H:%M:%S %d/%m/%Y"]
+       "%d %B %Y %H:%M", "%b %d %Y %I:%M%p", "%Y/%m/%d %H.%M", "%d %b %Y %H:%M:%S.%f", "%I %p %d %B %Y", "%y-%m-%d %H:%M", "%H:%M:%S %d/%m/%Y",
+       # microseconds away from the canonical 'H:M:S.ffffff' shape: no dot at all, a comma, a dot earlier in the string, dots as time separators
+       "%Y%m%d%H%M%S%f", "%d.%m.%Y %H:%M:%S,%f", "%d.%m.%y %H%M%S.%f", "%H:%M:%S,%f %d/%m/%Y", "%d.%m.%Y %H.%M.%S.%f", "%f %S %M %H %d %m %Y"]
 PREFS = ["current", "first", "last"]
 
 
